@@ -110,11 +110,28 @@ def _ns_map(ex, st, v):
     return None
 
 
+def split_steps(path):
+    """split on '/' outside of {namespace} braces"""
+    steps, cur, depth = [], "", 0
+    for ch in path:
+        if ch == "{":
+            depth += 1
+        elif ch == "}":
+            depth -= 1
+        if ch == "/" and depth == 0:
+            steps.append(cur)
+            cur = ""
+        else:
+            cur += ch
+    steps.append(cur)
+    return steps
+
+
 def resolve_path(path, ns):
     """'p:a/p:b' + {p: uri} -> ['{uri}a', '{uri}b'] (ElementPath subset: child steps only)."""
     steps = []
-    for step in path.split("/"):
-        if step in ("", ".", "..", "*") or step.startswith("[") or "[" in step:
+    for step in split_steps(path):
+        if step in ("", ".", "..", "*") or "[" in step:
             return None
         if ":" in step and not step.startswith("{"):
             p, _, local = step.partition(":")
